@@ -365,6 +365,11 @@ def _check_main(ctx, rep: Report):
 def check(ctx, rep):
     from . import metarules, shared
     _check_main(ctx, rep)
+    from . import metarules, r5rules
+    r5rules.nearest_stop(ctx, rep, "C09.NEAREST")
+    metarules.attr_spec_fresh(ctx, rep, "C09.SPEC")
+    r5rules.setattr_rules(ctx, rep, "C09.DUNDER", ("prepare",))
+    r5rules.options_independent(ctx, rep, "C09.OPTS")
     shared.own_namespace_lookups(ctx, rep, "C09.NS")
     metarules.preparer_registration(ctx, rep, "C09.PREP")
     metarules.parent_ctor_guard(ctx, rep, "C09.PAR")
